@@ -155,7 +155,7 @@ func analyse(kops []op, tl *timeline, phases []phaseInfo) analysis {
 			}
 		}
 		if inWindow && goodAfter > 0 {
-			sig := fmt.Sprintf("stale-read-in-failover-window|%s|fault=%s|victim=%s|write-issued-before-the-fault|converged-before-quiescence", kind, faultName, victim)
+			sig := fmt.Sprintf("stale-read-in-failover-window|victim=%s|write-issued-before-the-fault|converged-before-quiescence|%s|fault=%s", victim, kind, faultName)
 			return analysis{Sig: sig, What: what + fmt.Sprintf("; %d wrong reads, all during the concurrent phase after the fault on store %d, later reads (%d) and all quiescent reads are correct", len(bad), ph.Victim, goodAfter), Phase: first.R.Phase, Bad: len(bad), Detail: detail}
 		}
 	}
